@@ -490,6 +490,7 @@ def check_table(rep, F):
         return
     fw, fr = fw[0], fr[0]
     rep.analysed(fw); rep.analysed(fr)
+    check_table_number_format(rep, fw, "R8.4")
     fo = Fold(fw, record_calls=r"operator<<$").run()
     written = set()
     for v, e in stream_items(fo):
@@ -611,3 +612,25 @@ def check_imcio(rep, F):
     parse = [n for n in fri.walk() if n.get("k") == "mcall" and n.get("callee") == T + "RangeParser::Parse"]
     rep.check(okw and okr and len(parse) == 1, "R8.5", "imc|index", "'name range' written; split at the first blank and re-parsed on read",
               "IMC index file: writer items %s, reader split/parse not recognised" % seq[:4], fri.loc())
+
+
+def check_table_number_format(rep, fw, rule):
+    """tables round-trip 'to printed precision': the writer prints a fixed number of SIGNIFICANT digits (general or scientific notation).  Fixed notation
+    prints a number of decimals instead, so ordinates of small magnitude lose all their digits (1.2345678e-9 -> 0.0000000012)"""
+    fixed = []
+    prec = []
+    for n in fw.walk():
+        cal = n.get("callee") or ""
+        if n.get("k") == "mcall" and cal.endswith("ios_base::precision") and n.get("args"):
+            v = lit_value(n["args"][0])
+            prec.append(v)
+        if n.get("k") == "mcall" and cal.endswith(("ios_base::setf", "ios_base::flags")) and any("fixed" in show(a) for a in n.get("args", [])):
+            fixed.append(n)
+        if n.get("k") in ("call", "ref") and (cal == "std::fixed" or n.get("qname") == "std::fixed" or (n.get("k") == "ref" and n.get("name") == "fixed" and "ios_base" in (n.get("type") or ""))):
+            fixed.append(n)
+        if n.get("k") == "call" and cal in ("std::setiosflags",) and any("fixed" in show(a) for a in n.get("args", [])):
+            fixed.append(n)
+    ok = not fixed and (not prec or all(p_ is not None and float(p_) >= 6 for p_ in prec))
+    rep.check(ok, rule, "table|number-format", "values are printed with %s significant digits (no fixed notation)" % (int(prec[0]) if prec and prec[0] is not None else "the default 6"),
+              "the Table writer %s: the printed precision becomes absolute, so small ordinates are truncated (1.2345678e-9 is written as 0.0000000012) and a saved "
+              "or resampled table no longer returns its values" % ("switches the stream to fixed notation" if fixed else "prints only %s digits" % prec), fw.loc(fixed[0]) if fixed else fw.loc(), sample=True)
